@@ -657,9 +657,11 @@ def make_cut_harness(cfg, tw):
 
     def harness():
         eng = core.engine()
-        D = D_matrix(eng, n, n)
+        rows = cfg.get("idx")         # the samples stand for these rows of a larger distance table
+        N = (max(rows) + 1) if rows else n
+        D = D_matrix(eng, N, N)
         opf = models.build_opf(uns_mod.UnsupervisedOPF, branch, D, min_k=1, max_k=k)
-        g, _ = build_knn_graph(tw, branch, n, D)
+        g, _ = build_knn_graph(tw, branch, n, D, idx=rows)
         opf.subgraph = g
         adjs, clus = [], []
         ncl = cfg.get("clusters", 2)
@@ -681,6 +683,7 @@ def make_cut_harness(cfg, tw):
 def cut_post(eng, cfg, out, info):
     n = cfg["n"]
     D, adjs, clus, ncl = out["D"], out["adjs"], out["clus"], out["ncl"]
+    rows = cfg.get("idx") or list(range(n))
     total = z3.RealVal(0)
     for l in range(ncl):
         internal, external = z3.RealVal(0), z3.RealVal(0)
@@ -688,7 +691,7 @@ def cut_post(eng, cfg, out, info):
             if clus[i] != l:
                 continue
             for j in adjs[i]:
-                d = to_real(D[i][j])
+                d = to_real(D[rows[i]][rows[j]])
                 w = z3.If(d > 0, 1 / d, z3.RealVal(0))
                 if clus[j] == l:
                     internal = internal + w
